@@ -9,7 +9,7 @@
  * or closed exactly once; success and the final failure (error -1: "can not continue, always report") are
  * reported once; the retry delay / time-out timer goes through tp_timer, the connect event through tp_data;
  * after a report that is not answered with CONTINUE the task is not touched.
- * Bounds: VF_NADDR (3) address slots (part 2: 2 addresses); parts 2 and 3: max_tries in [1, 2] (part 3 also 0) and at most 2 answered
+ * Bounds: VF_NADDR (3) address slots (part 2: 2 addresses); parts 2 and 3: max_tries in [1, 2] and at most 2 answered
  * skt_connect calls (then ENETUNREACH), so that the retry loop can be unwound. */
 #include "vf/vf.h"
 #define VF_CONNECT_MAX 2
@@ -142,7 +142,7 @@ void harness(void) {
 	{
 		tp_task_p nt = (tp_task_p)(void *)&vf_tpt_obj;
 		VF_NONDET(uint8_t, null_sel);
-		VF_ASSUME(max_tries <= 2);					/* THE BOUND of the scheduling loop (0 = round robin) */
+		VF_ASSUME(max_tries >= 1 && max_tries <= 2);			/* THE BOUND of the scheduling loop; 0 = no limit: with every address failing at once the loop has no exit (see not_covered) */
 		VF_ASSUME(ident_none);
 		r = tp_task_connect_ex_create((null_sel == 1) ? NULL : tpt, tflags, timeout, (null_sel == 2) ? NULL : &prm, vf_cex_cb, &vf_cb_calls, (null_sel == 3) ? NULL : &nt);
 		__CPROVER_input("obs_result", r);
